@@ -195,7 +195,7 @@ func sigilOf(kind string) (byte, bool) {
 	switch kind {
 	case "room":
 		return '!', true
-	case "user":
+	case "user", "userkey":
 		return '@', true
 	case "event":
 		return '$', true
